@@ -114,3 +114,9 @@ iref = interface.build_reference(pm1)
 json.dump(iref, open(os.path.join(HERE, 'reference', 'interface.json'), 'w'), indent=0, sort_keys=True)
 print(len(iref['modules']), 'modules,', len(iref['classes']), 'classes,', len(iref['functions']),
       'functions in the interface reference')
+
+# in-place updates and exception handlers of every function (stonelint/mutation.py)
+from stonelint import mutation
+mref = mutation.build_reference(pm1)
+json.dump(mref, open(os.path.join(HERE, 'reference', 'mutations.json'), 'w'), indent=0, sort_keys=True)
+print(len(mref['functions']), 'functions with in-place updates or handlers')
